@@ -318,7 +318,20 @@ class BaseWSGIServer(wasyncore.dispatcher):
                 self.logger.warning("server accept() threw an exception", exc_info=True)
             return
         addr = self.fix_addr(addr)
-        self.channel_class(self, conn, addr, self.adj, map=self._map)
+        try:
+            self.channel_class(self, conn, addr, self.adj, map=self._map)
+        except OSError:
+            # The peer may be gone already: getsockopt() / setblocking() on
+            # the accepted socket fail while the channel is being set up. That
+            # is this connection's problem, not the listening socket's.
+            if self.adj.log_socket_errors:
+                self.logger.warning(
+                    "could not set up the accepted connection", exc_info=True
+                )
+            try:
+                conn.close()
+            except OSError:
+                pass
 
     def run(self):
         try:
